@@ -17,7 +17,6 @@
 package main
 
 import (
-	"encoding/json"
 	"fmt"
 	"math"
 	"reflect"
@@ -28,8 +27,10 @@ import (
 
 	"github.com/gogpu/naga"
 	"github.com/gogpu/naga/glsl"
+	"github.com/gogpu/naga/hlsl"
 	"github.com/gogpu/naga/ir"
 	"github.com/gogpu/naga/msl"
+	"github.com/gogpu/naga/spirv"
 )
 
 type job = common.Job
@@ -84,6 +85,10 @@ func litJSON(v ir.LiteralValue) map[string]any {
 	return map[string]any{"k": "lit", "t": fmt.Sprintf("%T", v)}
 }
 
+// number of constants of the module before ProcessOverrides appended one per override
+// (constant nOrigConsts+i is the one created for override i)
+var nOrigConsts = 1 << 30
+
 // tree of an expression of an arena; consts resolved through module constants' Init.
 func exprTree(m *ir.Module, arena []ir.Expression, h ir.ExpressionHandle, global bool, depth int) any {
 	if depth > 64 {
@@ -98,7 +103,7 @@ func exprTree(m *ir.Module, arena []ir.Expression, h ir.ExpressionHandle, global
 	case ir.ExprOverride:
 		return map[string]any{"k": "ovr", "h": int(k.Override)}
 	case ir.ExprConstant:
-		r := map[string]any{"k": "const", "h": int(k.Constant)}
+		r := map[string]any{"k": "const", "h": int(k.Constant), "ovr": int(k.Constant) - nOrigConsts}
 		if int(k.Constant) < len(m.Constants) {
 			c := &m.Constants[k.Constant]
 			r["name"] = c.Name
@@ -217,12 +222,59 @@ func resolvedJSON(m *ir.Module, nOrigConsts int) []any {
 	return out
 }
 
-func snapshot(m *ir.Module) string {
-	b, err := json.Marshal(common.Dump(m))
-	if err != nil {
-		return "marshal error: " + err.Error()
+// statement classes of the module's function bodies whose storage
+// CloneModuleForOverrides may or may not share with the caller's module
+func stmtClasses(m *ir.Module) map[string]int {
+	c := map[string]int{"nested": 0, "call_args": 0, "ptr": 0}
+	var walk func(b ir.Block, top bool)
+	walk = func(b ir.Block, top bool) {
+		if !top {
+			c["nested"] += len(b)
+		}
+		for i := range b {
+			switch k := b[i].Kind.(type) {
+			case ir.StmtBlock:
+				walk(k.Block, false)
+			case ir.StmtIf:
+				walk(k.Accept, false)
+				walk(k.Reject, false)
+			case ir.StmtSwitch:
+				for j := range k.Cases {
+					walk(k.Cases[j].Body, false)
+				}
+			case ir.StmtLoop:
+				walk(k.Body, false)
+				walk(k.Continuing, false)
+				if k.BreakIf != nil {
+					c["ptr"]++
+				}
+			case ir.StmtCall:
+				c["call_args"] += len(k.Arguments)
+				if k.Result != nil {
+					c["ptr"]++
+				}
+			case ir.StmtReturn:
+				if k.Value != nil {
+					c["ptr"]++
+				}
+			case ir.StmtAtomic:
+				if k.Result != nil {
+					c["ptr"]++
+				}
+			case ir.StmtImageStore:
+				if k.ArrayIndex != nil {
+					c["ptr"]++
+				}
+			}
+		}
 	}
-	return string(b)
+	for i := range m.EntryPoints {
+		walk(m.EntryPoints[i].Function.Body, true)
+	}
+	for i := range m.Functions {
+		walk(m.Functions[i].Body, true)
+	}
+	return c
 }
 
 func constsOf(j *job) (map[string]float64, error) {
@@ -265,17 +317,131 @@ func wantsPath(j *job, p string) bool {
 	return false
 }
 
-func doResolve(j *job, res map[string]any) {
-	src := j.Source()
+func lowerSrc(src string) (*ir.Module, string, error) {
 	ast, err := naga.Parse(src)
 	if err != nil {
-		res["stage"] = "parse"
-		res["err"] = err.Error()
-		return
+		return nil, "parse", err
 	}
 	mod, err := naga.LowerWithSource(ast, src)
 	if err != nil {
-		res["stage"] = "lower"
+		return nil, "lower", err
+	}
+	return mod, "", nil
+}
+
+// first difference between two reflection dumps: the chain of struct type names /
+// field names leading to it (no indices), e.g. "Module.Functions/Function.Body/Statement.Kind/StmtReturn.Value"
+func firstDiff(a, b any, path string) string {
+	switch x := a.(type) {
+	case map[string]any:
+		y, ok := b.(map[string]any)
+		if !ok {
+			return path
+		}
+		tn, _ := x["_t"].(string)
+		keys := make([]string, 0, len(x))
+		for k := range x {
+			keys = append(keys, k)
+		}
+		sort.Strings(keys)
+		for _, k := range keys {
+			if d := firstDiff(x[k], y[k], path+"/"+tn+"."+k); d != "" {
+				return d
+			}
+		}
+		if len(x) != len(y) {
+			return path + "/" + tn
+		}
+		return ""
+	case []any:
+		y, ok := b.([]any)
+		if !ok {
+			return path
+		}
+		for i := range x {
+			if i >= len(y) {
+				return path + "[len]"
+			}
+			if d := firstDiff(x[i], y[i], path); d != "" {
+				return d
+			}
+		}
+		if len(x) != len(y) {
+			return path + "[len]"
+		}
+		return ""
+	default:
+		if !reflect.DeepEqual(a, b) {
+			return path
+		}
+		return ""
+	}
+}
+
+// runs f on a freshly lowered module and reports whether that module (the caller's
+// original) is unchanged afterwards
+func withFresh(src string, out map[string]any, f func(mod *ir.Module)) {
+	mod, _, err := lowerSrc(src)
+	if err != nil {
+		out["err"] = err.Error()
+		return
+	}
+	before := common.Dump(mod)
+	func() {
+		defer func() {
+			if r := recover(); r != nil {
+				out["panic"] = fmt.Sprint(r)
+			}
+		}()
+		f(mod)
+	}()
+	after := common.Dump(mod)
+	d := firstDiff(before, after, "")
+	out["orig_unchanged"] = d == ""
+	if d != "" {
+		out["orig_diff"] = d
+	}
+}
+
+func compileAll(mod *ir.Module, out map[string]any) {
+	func() {
+		defer func() {
+			if r := recover(); r != nil {
+				out["backend_panic"] = fmt.Sprint(r)
+			}
+		}()
+		o := glsl.DefaultOptions()
+		if len(mod.EntryPoints) > 0 {
+			o.EntryPoint = mod.EntryPoints[0].Name
+		}
+		if s, _, err := glsl.Compile(mod, o); err != nil {
+			out["glsl_err"] = err.Error()
+		} else {
+			out["glsl"] = s
+		}
+		if s, _, err := msl.Compile(mod, msl.DefaultOptions()); err != nil {
+			out["msl_err"] = err.Error()
+		} else {
+			out["msl"] = s
+		}
+		if s, _, err := hlsl.Compile(mod, hlsl.DefaultOptions()); err != nil {
+			out["hlsl_err"] = err.Error()
+		} else {
+			out["hlsl"] = s
+		}
+		if b, err := naga.GenerateSPIRV(mod, spirv.DefaultOptions()); err != nil {
+			out["spv_err"] = err.Error()
+		} else {
+			out["spv_len"] = len(b)
+		}
+	}()
+}
+
+func doResolve(j *job, res map[string]any) {
+	src := j.Source()
+	mod, stage, err := lowerSrc(src)
+	if err != nil {
+		res["stage"] = stage
 		res["err"] = err.Error()
 		return
 	}
@@ -285,92 +451,67 @@ func doResolve(j *job, res map[string]any) {
 		res["err"] = err.Error()
 		return
 	}
+	nOrigConsts = 1 << 30
 	res["lowered"] = map[string]any{
 		"overrides": overridesJSON(mod), "globals": globalsJSON(mod), "workgroups": workgroupsJSON(mod),
-		"named": namedJSON(mod),
+		"named": namedJSON(mod), "stmt_classes": stmtClasses(mod),
 	}
-	before := snapshot(mod)
 
 	if wantsPath(j, "po") {
 		po := map[string]any{}
-		func() {
-			defer func() {
-				if r := recover(); r != nil {
-					po["panic"] = fmt.Sprint(r)
-				}
-			}()
-			clone := ir.CloneModuleForOverrides(mod)
+		withFresh(src, po, func(m *ir.Module) {
+			clone := ir.CloneModuleForOverrides(m)
 			nc := len(clone.Constants)
 			perr := ir.ProcessOverrides(clone, ir.PipelineConstants(consts))
 			if perr != nil {
 				po["err"] = perr.Error()
-			} else {
-				po["resolved"] = resolvedJSON(clone, nc)
-				po["globals"] = globalsJSON(clone)
-				po["workgroups"] = workgroupsJSON(clone)
-				po["named"] = namedJSON(clone)
-				if j.OptBool("backends_after_po", false) {
-					o := glsl.DefaultOptions()
-					if len(clone.EntryPoints) > 0 {
-						o.EntryPoint = clone.EntryPoints[0].Name
-					}
-					s, _, gerr := glsl.Compile(clone, o)
-					if gerr != nil {
-						po["glsl_err"] = gerr.Error()
-					} else {
-						po["glsl"] = s
-					}
-				}
+				return
 			}
-		}()
-		after := snapshot(mod)
-		po["orig_unchanged"] = before == after
+			nOrigConsts = nc
+			po["resolved"] = resolvedJSON(clone, nc)
+			po["globals"] = globalsJSON(clone)
+			po["workgroups"] = workgroupsJSON(clone)
+			po["named"] = namedJSON(clone)
+			nOrigConsts = 1 << 30
+			if wantsPath(j, "backends") {
+				b := map[string]any{}
+				compileAll(clone, b)
+				po["backends"] = b
+			}
+		})
 		res["po"] = po
 	}
 	if wantsPath(j, "glsl") {
 		g := map[string]any{}
-		func() {
-			defer func() {
-				if r := recover(); r != nil {
-					g["panic"] = fmt.Sprint(r)
-				}
-			}()
+		withFresh(src, g, func(m *ir.Module) {
 			o := glsl.DefaultOptions()
-			if len(mod.EntryPoints) > 0 {
-				o.EntryPoint = mod.EntryPoints[0].Name
+			if len(m.EntryPoints) > 0 {
+				o.EntryPoint = m.EntryPoints[0].Name
 			}
 			o.PipelineConstants = ir.PipelineConstants(consts)
-			s, _, gerr := glsl.Compile(mod, o)
+			s, _, gerr := glsl.Compile(m, o)
 			if gerr != nil {
 				g["err"] = gerr.Error()
 			} else {
 				g["text"] = s
 			}
-		}()
-		g["orig_unchanged"] = before == snapshot(mod)
+		})
 		res["glsl"] = g
 	}
 	if wantsPath(j, "msl") {
 		g := map[string]any{}
-		func() {
-			defer func() {
-				if r := recover(); r != nil {
-					g["panic"] = fmt.Sprint(r)
-				}
-			}()
+		withFresh(src, g, func(m *ir.Module) {
 			o := msl.DefaultOptions()
 			o.PipelineConstants = consts
-			s, _, gerr := msl.Compile(mod, o)
+			s, _, gerr := msl.Compile(m, o)
 			if gerr != nil {
 				g["err"] = gerr.Error()
 			} else {
 				g["text"] = s
 			}
-		}()
-		g["orig_unchanged"] = before == snapshot(mod)
+		})
 		res["msl"] = g
 	}
-	_ = reflect.DeepEqual
 }
 
 // goconv: what THIS Go toolchain/architecture does for the float64 -> integer
